@@ -85,7 +85,7 @@ def gen_history(rng, S, nops):
         else:
             if rng.random() < 0.45:
                 h = rng.randrange(len(handle_reg))
-                ops.append({"op": "accessor", "ctx": h, "flavour": gen.pick(rng, ["memo_locale", "memo_t"])})
+                ops.append({"op": "accessor", "ctx": h, "flavour": gen.pick(rng, ["memo_locale", "memo_t", "memo_t_display", "memo_t_view", "memo_t_plural"] if handle_base[h] else ["memo_locale", "memo_t"])})
                 accessors.append([h, regs[handle_reg[h]]])
             else:
                 bases = [i for i, b in enumerate(handle_base) if b]
